@@ -599,6 +599,74 @@ func compact(c Case) Case {
 	return out
 }
 
+// genPromo builds pools that exercise the loop over promoted future-nonce transactions
+// (iterInfo.currentTxns) against a tight cost budget: one or two senders whose later nonces are
+// handed out before the current one (so they are parked as future transactions and promoted when
+// the current one is processed), every transaction with the same cost c, and MaxBlockCost at
+// j*c-1, j*c, j*c+1 (exact fit / one over / one under for j transactions) above the built-in cost.
+func genPromo(r *vh.Rand) Case {
+	var c Case
+	cost := []int{1, 5, 10, 20, 40}[r.Intn(5)]
+	c.Cfg = conch.Cfg{TransferCost: cost, FutureNonce: 20, MaxByteSize: 1 << 20, BatchSize: r.Range(1, 4)}
+	nSenders := r.Range(1, 2)
+	total := 0
+	var groups [][]TxnSpec
+	for s := 1; s <= nSenders; s++ {
+		base := int64(r.Intn(3))
+		c.Accts = append(c.Accts, conch.Acct{Client: s, Nonce: base, Bal: 1 << 40})
+		k := r.Range(2, 5) // parked future transactions
+		var g []TxnSpec
+		for n := base + 1 + int64(k); n >= base+1; n-- { // descending: ..., base+3, base+2, then base+1 last
+			t := TxnSpec{Client: s, Nonce: n, Fee: uint64(r.Intn(3)), DateOff: int64(r.Range(-100, 100))}
+			switch r.Intn(3) {
+			case 0:
+				t.Kind, t.To, t.Value = 0, nSenders+1, 1
+			case 1:
+				t.Kind, t.CostK = 1, cost
+			default:
+				t.Kind, t.CostK = 2, cost
+			}
+			g = append(g, t)
+		}
+		if r.Chance(1, 3) { // parked ones in random order, the current one still last
+			p := r.Perm(len(g) - 1)
+			g2 := make([]TxnSpec, 0, len(g))
+			for _, i := range p {
+				g2 = append(g2, g[i])
+			}
+			g = append(g2, g[len(g)-1])
+		}
+		total += len(g)
+		groups = append(groups, g)
+	}
+	// interleave the groups keeping each group's order
+	idx := make([]int, len(groups))
+	for len(c.Txns) < total {
+		gi := r.Intn(len(groups))
+		if idx[gi] < len(groups[gi]) {
+			c.Txns = append(c.Txns, groups[gi][idx[gi]])
+			idx[gi]++
+		}
+	}
+	for i := range c.Txns {
+		c.Order = append(c.Order, i)
+	}
+	floor := 0
+	c.Challenge = r.Chance(1, 4)
+	if c.Challenge {
+		floor = 100
+	}
+	if r.Chance(1, 2) {
+		c.Cfg.SettingsPeriod = 1
+	}
+	j := r.Range(1, total+1)
+	c.Cfg.MaxBlockCost = floor + j*cost + r.Range(-1, 1)
+	if c.Cfg.MaxBlockCost < floor || c.Cfg.MaxBlockCost < 1 {
+		c.Cfg.MaxBlockCost = floor + 1
+	}
+	return c
+}
+
 func key(c Case) string {
 	b, _ := json.Marshal(c)
 	h := sha256.Sum256(b)
@@ -614,7 +682,7 @@ func main() {
 	rep.Rule = "pools of 0-40 transactions over 2-8 senders (60% continue the sender's nonce, rest duplicate/gap/past/far-future/extreme nonces; " +
 		"sends around the balance, script-contract calls with costs 1-20 succeeding or failing, unknown functions, non-contract addresses, built-in names, " +
 		"creation dates inside/outside the tolerance, bad signatures, oversized values), iteration order as generated / by fee / shuffled, sometimes an entry twice; " +
-		"cost limit at a prefix cost -1/0/+1; built-ins commit_settings_changes / generate_challenge on or off; + all ordered pools of length <= 2 (3 thorough) over 6 transaction shapes. " +
+		"cost limit at a prefix cost -1/0/+1; + 80 (800 thorough) pools whose later nonces are handed out first (parked as future, promoted by the current one, then processed by the currentTxns loop) with equal costs c and the limit at j*c-1/j*c/j*c+1; built-ins commit_settings_changes / generate_challenge on or off; + all ordered pools of length <= 2 (3 thorough) over 6 transaction shapes. " +
 		"non-trivial = block holds at least one pool transaction and at least one pool entry was left out; distinct by input hash"
 	cf := &vh.CasesFile{Imports: []string{"Base.Corr", "Model.BlockGen", "Corr.BlockGen"}, CaseType: "bgc_case", CheckFn: "bgc_check", Shard: 50}
 
@@ -675,6 +743,14 @@ func main() {
 	rnd := vh.NewRand(o.Seed)
 	for i := 0; i < o.N(260, 3000); i++ {
 		handle(genCase(rnd, 40))
+	}
+	// promoted future transactions against a tight budget (the currentTxns loop)
+	handle(Case{Cfg: conch.Cfg{MaxBlockCost: 100, TransferCost: 40, FutureNonce: 20, MaxByteSize: 1 << 20, BatchSize: 2},
+		Accts: []conch.Acct{{Client: 1, Nonce: 1, Bal: 1 << 40}},
+		Txns: []TxnSpec{{Client: 1, Nonce: 4, Kind: 1, CostK: 40}, {Client: 1, Nonce: 3, Kind: 1, CostK: 40}, {Client: 1, Nonce: 2, Kind: 1, CostK: 40}},
+		Order: []int{0, 1, 2}})
+	for i := 0; i < o.N(80, 800); i++ {
+		handle(genPromo(rnd))
 	}
 	// exhaustive: every ordered pool of up to L entries over six shapes, two senders
 	shapes := []TxnSpec{
